@@ -67,6 +67,16 @@ def run_c04(ctx):
     mc_stage(ctx, "scalar", instrs, dict(IntVals=IP6 if q else IP10, FloatVals=FP7 if q else FP15, NameVals=["a", "b", "x y"],
                                           DInt=2, DFloat=2, DBool=2, DName=2))
     run_events(ctx, "rand_scalar", random_instr_cases(ctx, instrs, 30 if q else 1500, ctx.seed))
+    # NAME instructions on long names (every length class around powers of two)
+    cs = []
+    for i, (la, lb) in enumerate([(1, 1), (100, 200), (2047, 2048), (2048, 2048), (4095, 1), (4096, 4096), (5000, 3), (3, 9000)] if q else
+                                 [(a, b) for a in (1, 255, 1023, 2047, 2048, 4095, 4096, 8191, 20000) for b in (1, 2, 2048, 4097)]):
+        for name in ("NAME.CAT", "NAME.=", "NAME.DUP", "NAME.SWAP"):
+            s = gen.empty_state()
+            s["name"] = ["y" * lb, "x" * la, "z"]
+            s["exec"] = [ins(name)]
+            cs.append({"id": "longname-%03d-%s" % (i, name), "pre": s, "acts": [{"a": "step"}]})
+    run_events(ctx, "long_names", cs)
     if not q:
         # build-profile clause: the same cases in the optimised build
         pv.build_harness("release")
@@ -81,6 +91,8 @@ def run_c05(ctx):
     others = [n for n in stack_instrs(reg) if not n.startswith("INTEGER.")]
     mc_stage(ctx, "stack", others, dict(IntVals=IDX8, FloatVals=[F["one"], F["two"], F["nan"]], NameVals=["a", "b", "c"],
                                          CodePool="abc", VecPool="small", DInt=1, DFloat=d, DBool=d, DName=d, DCode=d, DExec=d, DVec=d))
+    big = [n for n in stack_instrs(reg) if n.startswith(("CODE.", "EXEC."))]
+    mc_stage(ctx, "stack_big", big, dict(IntVals=[-1, 0, 1, 2], CodePool="big", DInt=1, DCode=2 if q else 3, DExec=2 if q else 3))
     ints = [n for n in stack_instrs(reg) if n.startswith("INTEGER.")]
     mc_stage(ctx, "stack_int", ints, dict(IntVals=[-2147483648, -1, 0, 1, 2, 3, 2147483647] if not q else [-1, 0, 1, 2, 2147483647], DInt=d + 1))
     run_events(ctx, "rand_stack", random_instr_cases(ctx, stack_instrs(reg), 20 if q else 600, ctx.seed))
@@ -161,6 +173,35 @@ def run_c08(ctx):
     run_events(ctx, "item_api", cs, spec="TraceApi")
 
 
+def vector_sequence_cases(ctx, n):
+    """histories of vector instructions on evolving vectors (sets built by SET*INSERT, APPEND / REMOVE / SORT /
+    ROTATE chains, element-wise operations on the results)"""
+    g = gen.Gen(ctx.seed + 27, ctx.registry, small_ints=True)
+    vi = [x for x in vector_instrs(ctx.registry)] + ["INTVECTOR.DUP", "FLOATVECTOR.DUP", "BOOLVECTOR.DUP", "INTVECTOR.SWAP"]
+    cases = []
+    for i in range(n):
+        s = gen.empty_state()
+        prog = []
+        mode = g.r.random()
+        for _ in range(g.r.randint(15, 60)):
+            k = g.r.random()
+            if mode < 0.35 and k < 0.7:        # set building
+                prog += [{"k": "int", "v": g.r.randint(-3, 14)}, ins(g.r.choice(["INTVECTOR.SET*INSERT", "INTVECTOR.SET*INSERT", "INTVECTOR.APPEND", "INTVECTOR.REMOVE"]))]
+            elif k < 0.5:
+                prog.append(ins(g.r.choice(vi)))
+            elif k < 0.75:
+                prog.append({"k": "int", "v": g.r.randint(-4, 9)})
+            elif k < 0.85:
+                prog.append({"k": "float", "v": g.float()})
+            elif k < 0.9:
+                prog.append({"k": "bool", "v": g.r.random() < 0.5})
+            else:
+                prog.append(g.r.choice([{"k": "ivec", "v": g.ivec()}, {"k": "fvec", "v": g.fvec()}, {"k": "bvec", "v": g.bvec()}]))
+        s["exec"] = prog
+        cases.append({"id": "vecseq-%05d" % i, "pre": s, "acts": [{"a": "steps", "k": 150}]})
+    return cases
+
+
 def run_c09(ctx):
     q = ctx.tier == "quick"
     instrs = vector_instrs(ctx.registry)
@@ -168,6 +209,7 @@ def run_c09(ctx):
                                           FloatVals=[F["zero"], F["one"], F["x15"], F["nan"]] if not q else [F["one"], F["nan"]], DVec=2, DInt=2, DFloat=2 if not q else 1, DBool=1))
     run_events(ctx, "rand_vector", random_instr_cases(ctx, instrs, 30 if q else 1500, ctx.seed, small_ints=True))
     run_events(ctx, "rand_vector_wide", random_instr_cases(ctx, instrs, 10 if q else 300, ctx.seed + 7))
+    run_events(ctx, "vector_sequences", vector_sequence_cases(ctx, 60 if q else 3000))
 
 
 def list_roundtrip_cases(ctx, n):
@@ -303,6 +345,22 @@ def loop_program_cases(ctx, n):
     cases = []
     for i in range(n):
         s = gen.empty_state()
+        if i % 4 == 3:
+            # the loop body is a NAME bound to code, and the binding is replaced while the loop is running
+            other = lst([ins("INDEX.CURRENT"), {"k": "int", "v": 200}, ins("VERIF.PROBE"), ins("INTEGER.POP"), ins("INTEGER.POP")])
+            first = lst([ins("INDEX.CURRENT"), {"k": "int", "v": 100}, ins("VERIF.PROBE"), ins("INTEGER.POP"), ins("INTEGER.POP")] +
+                        ([ins("NAME.QUOTE"), {"k": "id", "v": "body"}, ins(g.r.choice(["EXEC.DEFINE", "EXEC.DEFINE", "CODE.DEFINE"])), other] if g.r.random() < 0.8 else []))
+            s["bind"] = {"body": first}
+            s["code"] = [other]
+            kind = g.r.choice(["EXEC.LOOP", "EXEC.LOOP", "INTVECTOR.LOOP", "EXEC.Y3"])
+            if kind == "EXEC.LOOP":
+                s["exec"] = [{"k": "int", "v": g.r.randint(0, 5)}, ins("INDEX.DEFINE"), ins("EXEC.LOOP"), {"k": "id", "v": "body"}]
+            elif kind == "INTVECTOR.LOOP":
+                s["exec"] = [{"k": "ivec", "v": [1, 2, 3]}, ins("INTVECTOR.LOOP"), {"k": "id", "v": "body"}]
+            else:
+                s["exec"] = [ins("EXEC.DUP"), {"k": "id", "v": "body"}, ins("EXEC.K"), {"k": "id", "v": "body"}, {"k": "id", "v": "body"}]
+            cases.append({"id": "loops-%05d" % i, "pre": s, "acts": [{"a": "steps", "k": 400}]})
+            continue
         s["exec"] = [lst(random_loop_program(g))]
         cases.append({"id": "loops-%05d" % i, "pre": s, "acts": [{"a": "steps", "k": 3000}]})
     return cases
@@ -311,6 +369,8 @@ def loop_program_cases(ctx, n):
 def run_c06(ctx):
     q = ctx.tier == "quick"
     mc_stage(ctx, "control", CONTROL, dict(CodePool="abc", IntVals=[-1, 0, 3], DInt=1, DBool=1, DCode=3 if not q else 2, DExec=3, VecPool="small", DVec=1, Interp=True))
+    mc_stage(ctx, "control_big", ["CODE.QUOTE", "CODE.DO", "CODE.DO*", "CODE.IF", "EXEC.IF", "EXEC.K", "EXEC.S", "EXEC.Y", "EXEC.LOOP", "CODE.LOOP", "INTVECTOR.LOOP", "EXEC.="],
+             dict(CodePool="big", IntVals=[0], DInt=0, DBool=1, DCode=2, DExec=2 if q else 3, VecPool="small", DVec=1))
     stages.behav_stage(ctx, "control", 4 if q else 9)
     run_events(ctx, "random_loops", loop_program_cases(ctx, 40 if q else 1500))
 
@@ -339,6 +399,32 @@ def run_c07(ctx):
         s["exec"] = prog
         cases.append({"id": "names-%05d" % i, "pre": s, "acts": [{"a": "steps", "k": 80}]})
     run_events(ctx, "name_sequences", cases)
+    # redefinition with values that differ but print alike (floats equal to three decimals, empty vectors of
+    # different types, lists of those) and with values that are equal: the later definition must win
+    fb = gen.f2b
+    conf = [{"k": "float", "v": fb(0.125)}, {"k": "float", "v": fb(0.1252)}, {"k": "float", "v": fb(0.0)}, {"k": "float", "v": fb(-0.0)}, {"k": "float", "v": fb(1e-5)},
+            {"k": "bvec", "v": []}, {"k": "ivec", "v": []}, {"k": "fvec", "v": []}, {"k": "int", "v": 7}, {"k": "id", "v": "b"},
+            lst([{"k": "float", "v": fb(0.125)}, ins("FLOAT.+")]), lst([{"k": "float", "v": fb(0.1252)}, ins("FLOAT.+")]), lst([]), lst([{"k": "ivec", "v": []}]), lst([{"k": "fvec", "v": []}])]
+    typed = {"float": "FLOAT", "bvec": "BOOLVECTOR", "ivec": "INTVECTOR", "fvec": "FLOATVECTOR", "int": "INTEGER"}
+    cases = []
+    k = 0
+    for v1 in conf:
+        for v2 in conf:
+            for how in ("CODE", "EXEC", "typed"):
+                def frag(v, quoted):
+                    nm = [ins("NAME.QUOTE"), {"k": "id", "v": "x"}] if quoted else [{"k": "id", "v": "x"}]
+                    if how == "CODE": return [ins("CODE.QUOTE"), v] + nm + [ins("CODE.DEFINE")]
+                    if how == "EXEC": return nm + [ins("EXEC.DEFINE"), v]
+                    return [v] + nm + [ins(typed[v["k"]] + ".DEFINE")]
+                if how == "typed" and (v1["k"] not in typed or v2["k"] not in typed):
+                    continue
+                s = gen.empty_state()
+                s["float"] = [fb(1.0)]
+                s["exec"] = frag(v1, False) + frag(v2, True) + [{"k": "id", "v": "x"}, ins("NAME.QUOTE"), {"k": "id", "v": "x"}, ins("CODE.DEFINITION")]
+                cases.append({"id": "redef-%04d" % k, "pre": s, "acts": [{"a": "steps", "k": 30}]}); k += 1
+    if q:
+        cases = cases[::3]
+    run_events(ctx, "redefinitions", cases)
 
 
 # instructions whose result is not a function of the abstract state: random draws, the shell-out, and the graph
@@ -372,8 +458,21 @@ def run_c02(ctx):
         lim = g.r.choice([-1, 0, 1, 2, 3, 5, 8, 13, 21, 40])
         s["cfg"]["push_limit"] = lim
         s["cfg"]["growth_cap"] = g.r.choice([0, 1, 2, 3, 5, 500])
+        if g.r.random() < 0.3:      # the program is already on the CODE stack (e.g. a second run on the same state)
+            s["code"] = [json.loads(json.dumps(x)) for x in s["exec"]] + (s["code"] if g.r.random() < 0.5 else [])
         cs.append({"id": "randrun-%05d" % i, "pre": s, "acts": [{"a": "copy_to_code"}, {"a": "steps", "k": max(lim, 0) + 3}, {"a": "run_from_start"}]})
     run_events(ctx, "random_runs", cs)
+    # growth accounting: every RAND-free instruction as a one-instruction program under growth caps 0 and 1
+    cs = []
+    for c in random_instr_cases(ctx, RANDFREE(ctx.registry), 1 if q else 6, ctx.seed + 43, prefix="growth", small_ints=True, registry=RANDFREE(ctx.registry)):
+        for cap in (0, 1):
+            s = json.loads(json.dumps(c["pre"]))
+            s["cfg"]["growth_cap"] = cap
+            s["cfg"]["push_limit"] = 4
+            if not s["input"]:
+                s["input"] = [g.msg()]
+            cs.append({"id": "%s-cap%d" % (c["id"], cap), "pre": s, "acts": [{"a": "copy_to_code"}, {"a": "steps", "k": 7}, {"a": "run_from_start"}]})
+    run_events(ctx, "growth_accounting", cs)
     # wall-clock limit: sleeping programs under a small eval_time_limit (one-sided inequalities only)
     cs = []
     for i, (nsleep, tl) in enumerate([(1, 1000), (3, 60), (4, 100), (5, 50), (2, 500)] if q else [(k, t) for k in (1, 2, 3, 5, 8) for t in (30, 60, 100, 200, 1000)]):
@@ -547,7 +646,7 @@ WS_CHARS = [" ", "\t", "\n", "\r", "\u000b", "\u000c", "\u0085", "\u00a0", "\u16
 ODD_TOKENS = ["(", ")", "(", ")", "INT[", "INT[]", "INT[1,2]", "INT[1,2}", "INT[1,,2]", "INT[\u00e9", "INT[1\u00e9", "BOOL[", "BOOL[1,0,true,false]", "BOOL[TRUE]",
               "FLOAT[", "FLOAT[1.5,-0.25]", "FLOAT[1e3,nan]", "FLOAT[x]", "\u00e9]", "\u00e9", "na\u00efve", "\u4e2d\u6587", "(x", "x)", "()", "1", "-1", "+1", "007",
               "2147483647", "2147483648", "-2147483648", "-2147483649", "1.5", "-0.125", ".5", "5.", "1e3", "1E-2", "inf", "-Infinity", "NaN", "nan", "infinit", "1.2.3", "1e", "--1",
-              "TRUE", "FALSE", "true", "INTEGER.+", "CODE.QUOTE", "EXEC.DO*COUNT", "integer.+", "foo", "foo-bar", "x1", "[1,2]", "BOOLVECTOR.AND", "NOOP"]
+              "TRUE", "FALSE", "true", "INTEGER.+", "CODE.QUOTE", "VERIF.PROBE", "VERIF.NOOP*WITH*A*NAME*LONGER*THAN*ANY*BUILTIN*INSTRUCTION", "GRAPH.NODE*PREDECESSORS", "EXEC.DO*COUNT", "integer.+", "foo", "foo-bar", "x1", "[1,2]", "BOOLVECTOR.AND", "NOOP"]
 
 
 def random_text(g, maxtok):
@@ -929,10 +1028,17 @@ def all_instr_groups(ctx, small=True):
     reg = ctx.registry
     groups = []
     many = set(LISTREC + NEIGH + ["GRAPH.NODE*STATESWITCH"])
-    rest = [n for n in reg if n not in many]
-    groups.append(("all", rest, dict(IntVals=[0, 2] if small else [-2147483648, 0, 2, 2147483647], FloatVals=[F["one"], F["zero"]] if small else [F["one"], F["zero"], F["nan"]], NameVals=["a"],
-                                     CodePool="one" if small else "abc", VecPool="small", DInt=3, DFloat=2 if small else 3, DBool=2, DName=2, DCode=3 if small else 2, DExec=3 if small else 2, DVec=2, Interp=True)))
-    groups.append(("many", sorted(many), dict(IntVals=[1, 70], FloatVals=[F["one"]], NameVals=["a"], CodePool="one", VecPool="ids", DInt=4, DFloat=1, DBool=1, DName=1, DCode=1, DExec=1, DVec=1)))
+    int3 = {"INTVECTOR.RAND", "GRAPH.EDGE*HISTORY", "GRAPH.NODE*HISTORY", "GRAPH.EDGE*ADD", "GRAPH.EDGE*SETWEIGHT", "GRAPH.EDGE*GETWEIGHT",
+            "INTVECTOR.SET", "LIST.BVAL", "LIST.IVAL", "LIST.FVAL", "INTEGER.ROT", "INTEGER.YANK", "INTEGER.SHOVE", "INTEGER.YANKDUP", "INTVECTOR.FROMINT",
+            "GRAPH.NODE*SETSTATE", "FLOATVECTOR.SINE", "INTEGER.DDUP"}
+    rest = [n for n in reg if n not in many and (not small or n not in int3)]
+    groups.append(("all", rest, dict(IntVals=[-1, 0, 2] if small else [-2147483648, -1, 0, 2, 2147483647], FloatVals=[F["one"], F["zero"]] if small else [F["one"], F["zero"], F["nan"]], NameVals=["a"],
+                                     CodePool="one" if small else "abc", VecPool="small", DInt=2 if small else 3, DFloat=2 if small else 3, DBool=2, DName=2, DCode=3 if small else 2, DExec=3 if small else 2, DVec=2, Interp=True)))
+    if small:
+        groups.append(("int3", sorted(int3), dict(IntVals=[0, 2], FloatVals=[F["one"], F["zero"]], NameVals=["a"], CodePool="one", VecPool="small",
+                                                 DInt=3, DFloat=3, DBool=1, DName=1, DCode=2, DExec=1, DVec=1)))
+    groups.append(("many", LISTREC + ["GRAPH.NODE*STATESWITCH"], dict(IntVals=[1], FloatVals=[F["one"]], NameVals=["a"], CodePool="one", VecPool="ids", DInt=2, DFloat=1, DBool=1, DName=1, DCode=1, DExec=1, DVec=1)))
+    groups.append(("neigh", NEIGH, dict(IntVals=[1, 64, 70], FloatVals=[F["one"]], CodePool="one", DInt=4, DFloat=1, DCode=1)))
     return groups
 
 
@@ -952,7 +1058,7 @@ def run_c01(ctx):
     run_events(ctx, "rand_instr", random_instr_cases(ctx, ctx.registry, 6 if q else 300, ctx.seed + 2))
     # family-specific sequences (multi-step histories the uniform generator rarely produces)
     seqs = io_sequence_cases(ctx, 60 if q else 3000) + graph_sequence_cases(ctx, 30 if q else 2000) + \
-        loop_program_cases(ctx, 20 if q else 1000) + list_roundtrip_cases(ctx, 40 if q else 2000)
+        loop_program_cases(ctx, 20 if q else 1000) + list_roundtrip_cases(ctx, 40 if q else 2000) + vector_sequence_cases(ctx, 30 if q else 1500)
     run_events(ctx, "family_sequences", seqs)
     if not q:
         pv.build_harness("release")
